@@ -19,7 +19,7 @@ func clCursorMovesFiltered(c *Ctx) {
 	cnt := counter{}
 	for _, site := range p.AllCallSites(moves...) {
 		fn := site.Parent()
-		if fn == skip {
+		if p.sameRoot(fn, skip) {
 			continue // the filter itself; its loop shape is decided by the visibility-table clause
 		}
 		if f, _ := loadedField(callOf(site).Args[0]); f != fIter {
